@@ -928,14 +928,16 @@ def oracleStep (o : OState) (toks : List String) (impl : String) : OState :=
       o.flag "C09" s!"@{k} get_raw failed on the container that the previous call returned, yet no error is set after the call: the failure cannot be detected by a check at the end"
     else o
   -- C16: callbacks (tokens processed) bounded by the bytes moved over
-  -- (profile anyL issues lookups with an array on top, outside the documented use the bound is stated for: there a lookup
-  --  re-announces every container element it parks on, up to 3 tokens per 2 bytes; those calls are judged for termination only)
-  let o := if (isAdvancing op || op == "v") && !(o.profile == "anyL" && ["f", "fz", "F", "Fz"].contains op) then
+  -- (profile anyL issues lookups with an array on top, outside the documented use: there a lookup re-announces every
+  --  container element it parks on, and the bound that holds - and is proved for every state, `c16_field_cost` - is
+  --  tokens <= 2 * bytes advanced over + 2; the factor-1 bound is judged for the documented use, as before)
+  let anyLookup := o.profile == "anyL" && ["f", "fz", "F", "Fz"].contains op
+  let o := if isAdvancing op || op == "v" then
       (let o := { o with nCostJudged := o.nCostJudged + 1 }
-       let bound := po.doc.size + 1
+       let bound := if anyLookup then 2 * po.doc.size + 2 else po.doc.size + 1
        let o := if ob.ncb > bound then o.flag "C16" s!"@{k} {op}: {ob.ncb} tokens processed for a {po.doc.size}-byte buffer" else o
        -- per call: tokens processed <= bytes the cursor advanced over + a small constant (verify restarts at 0)
-       if op != "v" && ob.ncb > (ob.used - po.lastUsed) + 2 then
+       if op != "v" && ob.ncb > (if anyLookup then 2 * (ob.used - po.lastUsed) + 2 else (ob.used - po.lastUsed) + 2) then
          o.flag "C16" s!"@{k} {op}: {ob.ncb} tokens processed while the cursor moved from {po.lastUsed} to {ob.used}"
        else o)
     else o
